@@ -32,6 +32,9 @@ def shards(tier, seed):
         out.append({"id": "facade-" + t, "kind": "facade", "transport": t,
                     "statuses": "some" if tier == "quick" else "all"})
         out.append({"id": "facade-sessions-" + t, "kind": "facade_sessions", "transport": t, "n": 60 if tier == "quick" else 2500})
+        out.append({"id": "any-opcode-" + t, "kind": "any_opcode", "transport": t})
+        if t != "iscsi_noraw":
+            out.append({"id": "sense-table-" + t, "kind": "sense_table", "transport": t, "keys": [0, 1, 2, 5, 6, 0xB] if tier == "quick" else list(range(16))})
     return out
 
 
@@ -272,6 +275,10 @@ def run(shard, ctx):
         run_facade(shard, ctx, env, rng)
     elif kind == "facade_sessions":
         run_facade_sessions(shard, ctx, env, rng)
+    elif kind == "any_opcode":
+        run_any_opcode(ctx, env, rng)
+    elif kind == "sense_table":
+        run_sense_table(shard, ctx, env, rng)
     # no binding call may have been skipped
     if env.plan:
         ctx.fail("C07:%s.command_never_reached_binding" % t, "planned status never consumed", {"left": len(env.plan)})
@@ -302,6 +309,7 @@ def run_sequences(shard, ctx, env, rng):
             del env.injected[:-4]
         env.static_sense = bytearray(252) if s % 3 == 1 else None
         kept = None  # (exception, values, text) of the previous CHECK CONDITION
+        deferred = []  # errors the application only collects: first looked at when the whole batch is over
         for pos, (status, reuse, raw) in enumerate(steps):
             if status == 2 and rng.random() < 0.3:
                 # UNIT ATTENTION / POWER ON, RESET: typically seen (repeatedly) after a re-plug
@@ -327,6 +335,10 @@ def run_sequences(shard, ctx, env, rng):
             if len(env.injected) - consumed_before != 1:
                 ctx.fail("C07:%s.sequence.binding_reached_%d_times" % (t, len(env.injected) - consumed_before),
                          "one execute() reached the binding %d times" % (len(env.injected) - consumed_before), {"history": hist[-6:]})
+            if status == 2 and not raw and outcome == "raised" and isinstance(exc, env.dev.CheckCondition) and t != "iscsi_noraw" and (pos + s) % 3 == 0:
+                deferred.append((exc, sense, pos))
+                ctx.count("errors_inspected_only_later")
+                continue
             if kept is not None:
                 k_exc, k_vals, k_text = kept
                 now = (k_exc.data.get("sense_key"), getattr(k_exc, "asc", None), getattr(k_exc, "ascq", None))
@@ -347,6 +359,20 @@ def run_sequences(shard, ctx, env, rng):
             nontriv = nontriv or status != 0
             judge_call(ctx, env, "sequence", status, sense, raw, outcome, exc, cmd,
                        {"position": pos, "reused_command_object": bool(reuse), "history": hist[-6:]})
+        for d_exc, d_sense, d_pos in deferred:
+            from vmon.spec import sense as _ref
+
+            fmt, _deferred, key, asc, ascq = _ref.parse(d_sense)
+            try:
+                got = (d_exc.data.get("sense_key"), getattr(d_exc, "asc", None), getattr(d_exc, "ascq", None))
+            except Exception as e:  # noqa: BLE001
+                ctx.fail("C07:%s.sequence.collected_error_unreadable.%s" % (t, type(e).__name__), "an error looked at only after later commands ran cannot be read: %s" % e,
+                         {"history": hist[-6:], "position": d_pos, "static_sense_buffer": env.static_sense is not None}, exc=e)
+                continue
+            if fmt is not None and got != (key, asc, ascq):
+                ctx.fail("C07:%s.sequence.collected_error_reports_later_command" % t,
+                         "the CheckCondition of command %d, first looked at after the sequence, reports key/asc/ascq %r; the target sent %r for that command" % (d_pos, got, (key, asc, ascq)),
+                         {"history": hist[-6:], "position": d_pos, "static_sense_buffer": env.static_sense is not None})
         ctx.case((t, "seq", tuple((h.get("status"), h.get("reused_object"), h.get("raw"), h.get("via"), h.get("event")) for h in hist)), nontriv,
                  sample={"transport": t, "history": hist} if ctx.want_sample() else None)
         ctx.add("sequence_lengths", length)
@@ -374,6 +400,57 @@ def facade_calls(env, rng):
         seen.add(label)
         out.append((label, c, a))
     return out
+
+
+def run_any_opcode(ctx, env, rng):
+    """hand-built commands of every operation code with a fixed CDB length (commands the library has no class for: PRE-FETCH,
+    READ POSITION, vendor tools), every named status and CHECK CONDITION: the status decides, not the operation code"""
+    from pyscsi.pyscsi.scsi_command import SCSICommand
+    from pyscsi.pyscsi.scsi_opcode import OpCode
+
+    from vmon.spec import opcodes as O
+
+    t = env.transport
+    for v in range(256):
+        if O.group_length(v) is None:
+            continue
+        for status in [0, 2] + sorted(NAMED) + [0x10, 0x22, 0xFF]:
+            for raw in (False, True):
+                try:
+                    cmd = SCSICommand(OpCode("HAND_BUILT_%02X" % v, v, {}), 0, 16 if v & 1 else 0)
+                    cmd.cdb = cmd.build_cdb(opcode=v)
+                except Exception:  # noqa: BLE001
+                    continue
+                sense = env.unique_sense(rng) if status == 2 else None
+                env.plan = [(status, sense)]
+                outcome, exc = execute(env, cmd, raw, "scsi" if v % 3 == 0 else None)
+                ctx.case((t, "any-opcode", v, status, raw), status != 0)
+                ctx.count("binding_calls")
+                ctx.count("hand_built_commands")
+                judge_call(ctx, env, "any_opcode", status, sense, raw, outcome, exc, cmd, {"opcode": v})
+
+
+def run_sense_table(shard, ctx, env, rng):
+    """CHECK CONDITION with every assigned ASC/ASCQ (the library's table and the reference's) x sense keys x fixed / descriptor
+    format, raw sense on and off: no sense content turns an error into a normal return"""
+    import pyscsi.pyscsi.scsi_sense as mod
+
+    from vmon.spec import sense as ref
+
+    t = env.transport
+    pairs = sorted(set(ref.ASC) | {(k >> 8, k & 0xFF) for k in mod.sense_ascq_dict})
+    for asc, ascq in pairs:
+        for key in shard["keys"]:
+            for rc in (0x70, 0x72):
+                raw = bool((asc + ascq + key) % 5 == 0)
+                sense = ref.build(rc, 0, key, asc, ascq, 18 if rc == 0x70 else 8)
+                env.plan = [(2, sense)]
+                cmd = fresh_cmd(env, rng, "tur")
+                outcome, exc = execute(env, cmd, raw)
+                ctx.case((t, "sense-table", asc, ascq, key, rc, raw), True)
+                ctx.count("binding_calls")
+                ctx.count("assigned_codes_injected")
+                judge_call(ctx, env, "sense_table", 2, sense, raw, outcome, exc, cmd, {"key": key, "asc": asc, "ascq": ascq, "response_code": rc})
 
 
 def run_facade_sessions(shard, ctx, env, rng):
